@@ -843,7 +843,11 @@ func (vc *VC) loopHead(st *State, li *loopInfo, spec *LoopSpec, pos token.Pos, r
 					if len(conds) > 0 {
 						c = "(and " + strings.Join(conds, " ") + " true)"
 					}
+					lenBefore := len(st.pc)
 					vc.assume(st, fmt.Sprintf("(forall ((r Int)) (! (=> %s (= (select %s r) (select %s r))) :pattern ((select %s r))))", c, st.heap[k], before, st.heap[k]))
+					if len(st.pc) > lenBefore {
+						vc.frameFacts[st.pc[len(st.pc)-1]] = []string{st.heap[k]}
+					}
 				}
 			}
 		}
